@@ -264,7 +264,8 @@ Case gen() {
   if (R >= (1 << 16) && G::chance(4)) {   // many open subjects / one long open subject (size-dependent bookkeeping of open output)
     open.clear();
     if (G::coin()) { int m = (int)G::range(8, 20); for (int k = 0; k < m; ++k) open.push_back(GEN::randomPath(2, 5, R + R / 4)); }
-    else open.push_back(GEN::randomPath(30, 80, R + R / 4));
+    else if (G::coin()) open.push_back(GEN::randomPath(30, 80, R + R / 4));
+    else open.push_back(GEN::zigzag(GEN::boundarySize(), R + R / 4));   // vertex counts at and around 64/128/256
     ST.count("many_or_long_open_subjects");
   }
   if (G::chance(35)) { int pct = (int)G::range(20, 60); for (auto& p : open) GEN::axisAlignSome(p, pct); }   // horizontal / vertical open segments
